@@ -738,13 +738,27 @@ def replay(doc):
     base = run_case(cfg, Chooser(()), d['alphabet'], d['exchanges'])
     res = run_case(cfg, Chooser(d['choices']), d['alphabet'], d['exchanges'])
     rc = 0
+    want = doc.get('signature')
     for x in range(len(res['outcomes'])):
         v = judge(cfg, res, x, base['outcomes'])
         o = res['outcomes'][x]
+        sig = None
+        if v is not None:
+            # the signature as the exploration builds it (a known finding of
+            # the same case on the unchanged tree is not this violation)
+            what = v[0]
+            devs = res['devs'][x]
+            if devs:
+                idx, cmd, dev = devs[-1]
+            else:
+                prev = [dv for dl in res['devs'][:x] for dv in dl]
+                idx, cmd, dev = prev[-1] if prev else (None, 'none', None)
+                what = 'after:' + what if prev else what
+            sig = signature(cfg, cmd, dev, what)
         print('exchange %d: deviations %r -> %s %r : %s' % (
             x, [dv[1:] for dv in res['devs'][x]], outcome_class(o),
             o[1] if o[0] != 'data' else o[1].hex(),
-            'ok' if v is None else 'VIOLATION %s (%s)' % v))
-        if v is not None:
+            'ok' if v is None else 'VIOLATION %s (%s) [%s]' % (v + (sig,))))
+        if v is not None and (want is None or sig == want):
             rc = 1
     return rc
